@@ -39,7 +39,7 @@ func main() {
 			"a diagnostic without a rule name cannot be named in a rule list: it is expected to disappear under a bare directive (observed in calibration: it does) and to stay under any rule list",
 			"an include statement is replaced by the included statements: a directive covering the include statement is taken to cover the included module (keys with relation included-file)",
 			"range semantics follow docs/linter.md: `end` without rules re-enables everything, `end` with rules re-enables those rules; the `ranges` family generates properly nested and consecutive start/end pairs (bare and listed, up to four open at once, inside if blocks) and judges them by the stack of open pairs, except where that reading and the documentation's flat wording disagree (after an inner bare end; for a rule named by both an inner and an enclosing listed pair), which is tagged and not judged",
-			"documentation is silent on a blank line between the comment and the statement and on a directive that is not the last leading comment: falco's behaviour is recorded as obs:* tags, only leaks/new diagnostics are violations there",
+			"a blank line between a directive comment and its statement, or inside a range next to its comments, does not detach the comment: it stays a leading comment of the statement (expectation; docs/linter.md does not mention it, falco behaves so)",
 			"only balanced ranges inside one block are generated",
 		},
 		Gen:           genCases,
